@@ -247,8 +247,13 @@ func (c09) Run(t *testing.T, tape *core.Tape, rcx *RunCtx) *core.Result {
 	}
 	prod := 1
 	var ringFrags [][]c09Frag
+	// library mode: every slot has 2 or 3 alternatives (many partial assemblies alive at once)
+	library := tape.Chance(12)
 	for i := 0; i < k; i++ {
 		a := 1 + tape.Weighted(70, 20, 10)
+		if library {
+			a = 2 + tape.Draw(2)
+		}
 		if prod*a > 81 {
 			a = 1
 		}
